@@ -154,7 +154,7 @@ def make_config(prop, seed, tier):
         "faults": r.random() < 0.75,  # restarts / evictions / clock / chunking enabled
         "steps": r.randint(8, 25) if tier == "quick" else r.randint(10, 60),
         # separate configuration (DESIGN.md 2.3(4)): injected ENOSPC/EIO inside write requests
-        "io_faults": prop in ("C01", "C02", "C08") and r.random() < 0.3,
+        "io_faults": prop in ("C01", "C02", "C06", "C08") and r.random() < 0.3,
         # file mtimes follow the simulated clock, which only moves on clock ops: every
         # write between two of them carries the same timestamp
         "sim_mtime": r.random() < 0.5,
@@ -194,6 +194,7 @@ class HistRun:
         self.names_mode = cfg.get("names", "simple")
         self.uid_pool = ["uid-1", "uid-2", "uid-3", "UID-1", "uid 2", "u,3;x"]
         self.fresh = 0
+        self.post_cal = set()  # members created by POST of text/calendar (calendar objects under any name)
         self.tokens = {}  # coll path -> list of dict(step, token, snap)
         self.tag_states = {}  # coll path -> {tag: member_state}
         self.etag_bodies = {}  # relpath -> {etag: sha}
@@ -204,6 +205,7 @@ class HistRun:
         self.transitions = set()
         self.resyncs = 0
         self.io_faults = io_faults
+        self.rio_armed = 0
         self.git_heads = {}  # coll path -> list of commit ids (observer)
         self.last_fault = None
         self.world = None
@@ -394,7 +396,7 @@ class HistRun:
             self.v("C01", "C01.served-differs-from-upload", "%s%s: %s" % (
                 c.path, name, icalparse.diff(mm.upload, body) if calish else "bytes differ (len %d vs %d)" % (len(mm.upload), len(body))),
                 backend=c.backend, ext=name.rsplit(".", 1)[-1] if "." in name else "")
-        mm.uid = icalparse.first_uid(body) if name.endswith(".ics") else None
+        mm.uid = icalparse.first_uid(body) if (name.endswith(".ics") or c.path + name in self.post_cal) else None
 
     def last_op_kind(self):
         return self.ops[-1]["op"] if self.ops else "boot"
@@ -521,6 +523,10 @@ class HistRun:
                 if self.cfg.get("io_faults") and op["op"] in ("put", "post", "delete", "proppatch", "reupload") and self.io_armed < 2 and self.frng.random() < 0.25:
                     op["fault"] = {"after": self.frng.randint(1, 45), "errno": self.frng.choice(["ENOSPC", "ENOSPC", "EIO"])}
                     self.io_armed += 1
+                elif self.cfg.get("io_faults") and op["op"] in ("put", "post", "delete") and self.rio_armed < 3 and self.frng.random() < 0.25:
+                    # the read side of a write (UID scan, index / tree lookups) fails once
+                    op["read_fault"] = {"after": self.frng.randint(1, 80), "errno": self.frng.choice(["EIO", "EIO", "EMFILE"])}
+                    self.rio_armed += 1
                 return op
         return {"op": "get", "path": "/user/", "salt": 0}
 
@@ -591,7 +597,12 @@ class HistRun:
             if ext == ".ics" and ics_names and r.random() < 0.3:
                 # a UID that happens to equal the base name of another member
                 uid = r.choice(ics_names)[:-4]
+            elif ext == ".ics" and r.random() < 0.3:
+                uid = r.choice(self.uid_pool)
             body, ct = self.body_for("x" + ext, uid)
+            if r.random() < 0.35:
+                # media-type parameters, as real clients send them
+                ct += r.choice(["; charset=utf-8", ";charset=UTF-8", "; component=VEVENT", "; charset=\"utf-8\""])
             return {"op": "post", "coll": c.path, "body": b2s(body), "ctype": ct}
         if k == "put_recreate":
             gone = [t for t in m.tomb if t in self.body_hist and self.find_member(t) and not self.find_live(t)]
@@ -1076,6 +1087,9 @@ class HistRun:
                         self.v("C01", "C01.post-overwrote-existing-member", "POST %s answered %s with Location %r, which is the existing member %s: add-member altered another resource" % (coll, st, loc, name), backend=c.backend)
                     c.members[name] = MMember(body, op["ctype"])
                     ctx["rel"] = rel
+                    if op["ctype"].split(";")[0].strip() == "text/calendar":
+                        # a calendar object resource whatever name the server chose for it
+                        self.post_cal.add(rel)
                 else:
                     self.count("post_location_not_a_member_path")
                     self.adopt = (coll, body, op["ctype"])
@@ -1099,12 +1113,14 @@ class HistRun:
                     for key in [k for k in d if k.startswith(cpath)]:
                         del d[key]
                 self.model.drop_tree(cpath)
+                self.post_cal = {x for x in self.post_cal if not x.startswith(cpath)}
                 ctx["deleted_coll"] = cpath
             else:
                 fm = self.find_member(rel)
                 if fm and fm[1] in fm[0].members:
                     ctx["old_etag"] = fm[0].members[fm[1]].etag
                     del fm[0].members[fm[1]]
+                    self.post_cal.discard(rel)
                     self.model.tomb.append(rel)
                     ctx["coll"] = fm[0].path
                 else:
